@@ -141,6 +141,7 @@ func runC03(seed int64, tier string, sc *Script) map[string]any {
 				src = s2
 			case "oci-reopen-tar":
 				tarAppended = rng.Intn(2) == 0
+				tarPAX = nextTarPAX()
 				if err := tarDir(dir, dir+".tar"); err != nil {
 					panic(err)
 				}
